@@ -337,7 +337,7 @@ theorem slow_loop (n yy : Nat) (be : Bool) (hn8 : n ≤ 8) (hyy : 8 * n ≤ yy) 
   | cons b r ih =>
     intro taken s fuel hseek hle hdrop hbuf htaken hlen hs hfuel
     have hb : s.buf[s.iop]? = some b := by
-      have := List.getElem?_drop (l := s.buf) (i := s.iop) (j := 0)
+      have := List.getElem?_drop (xs := s.buf) (i := s.iop) (j := 0)
       rw [hdrop] at this
       simpa using this.symm
     have hblt : b < 256 := hbuf b (List.mem_of_getElem? hb)
